@@ -179,6 +179,26 @@ func Make(shape string, n int, seed int64) []byte {
 		if n >= 4 {
 			binary.BigEndian.PutUint32(b, []uint32{0xFEEDFACE, 0xCEFAEDFE, 0xFEEDFACF, 0xCFFAEDFE}[r.Intn(4)])
 		}
+		if n >= 64 && r.Intn(4) != 0 {
+			// MH_EXECUTE with a load-command chain whose sizes/offsets are garbage
+			binary.LittleEndian.PutUint32(b[12:], 2)
+			binary.LittleEndian.PutUint32(b[0x10:], uint32([]int{1, 3, 50, 65535, 1 << 30}[r.Intn(5)]))
+			pos := 0x1C + 4*r.Intn(2)
+			for k := 0; k < 3 && pos+0x60 < n; k++ {
+				binary.LittleEndian.PutUint32(b[pos:], uint32([]int{0x1, 0x19, 0x2}[r.Intn(3)]))
+				sz := []int{0x38, 0x48, 0, n, n - pos - 3, 1 << 31, 0x7FFFFFFF}[r.Intn(7)]
+				binary.LittleEndian.PutUint32(b[pos+4:], uint32(sz))
+				if r.Intn(2) == 0 {
+					copy(b[pos+8:], "__TEXT\x00\x00")
+					copy(b[pos+0x38:], "__text\x00\x00")
+					copy(b[pos+0x48:], "__text\x00\x00")
+				}
+				if sz <= 0 || sz > n {
+					break
+				}
+				pos += sz
+			}
+		}
 	case "wav":
 		b = make([]byte, n)
 		hdr := []byte("RIFF\x00\x00\x00\x00WAVEfmt \x10\x00\x00\x00\x01\x00\x02\x00\x44\xac\x00\x00\x10\xb1\x02\x00\x04\x00\x10\x00data\x00\x00\x00\x00")
